@@ -763,15 +763,132 @@ def canonical_control(mod):
     return n
 
 
+def _const_expr(e, known):
+    """A module-level value that is the same immutable object meaning wherever it is written: literals, tuples of them, + / % of them, names of other
+    such constants, frozenset(<literal collection>)."""
+    if isinstance(e, ast.Constant):
+        return True
+    if isinstance(e, ast.Tuple):
+        return all(_const_expr(x, known) for x in e.elts)
+    if isinstance(e, ast.BinOp) and isinstance(e.op, (ast.Add, ast.Mod, ast.Mult)):
+        return _const_expr(e.left, known) and _const_expr(e.right, known)
+    if isinstance(e, ast.Name):
+        return e.id in known
+    if isinstance(e, ast.Call) and isinstance(e.func, ast.Name) and e.func.id == "frozenset" and len(e.args) == 1 and not e.keywords \
+            and isinstance(e.args[0], (ast.Tuple, ast.List, ast.Set, ast.Constant)) and all(isinstance(x, ast.Constant) for x in getattr(e.args[0], "elts", [])):
+        return True
+    return False
+
+
+def new_module_constants(mod, pinned):
+    """name -> defining expression, for module-level names absent from the pinned tree, bound once to a constant expression and never rebound."""
+    top = pinned.get("__top__")
+    if top is None:
+        return {}
+    out = {}
+    stores = {}
+    for n in ast.walk(mod.tree):
+        if isinstance(n, ast.Name) and isinstance(n.ctx, (ast.Store, ast.Del)):
+            stores[n.id] = stores.get(n.id, 0) + 1
+        elif isinstance(n, ast.arg):
+            stores[n.arg] = stores.get(n.arg, 0) + 1
+        elif isinstance(n, (ast.Global, ast.Nonlocal)):
+            for x in n.names:
+                stores[x] = stores.get(x, 0) + 2
+        elif isinstance(n, FUNC_TYPES + (ast.ClassDef,)):
+            stores[n.name] = stores.get(n.name, 0) + 1
+        elif isinstance(n, ast.alias):
+            nm = (n.asname or n.name).split(".")[0]
+            stores[nm] = stores.get(nm, 0) + 1
+    for st in mod.tree.body:
+        if isinstance(st, ast.Assign) and len(st.targets) == 1 and isinstance(st.targets[0], ast.Name):
+            nm = st.targets[0].id
+            if nm in top or stores.get(nm, 0) != 1 or nm.startswith("__"):
+                continue
+            if _const_expr(st.value, out):
+                out[nm] = st.value
+    return out
+
+
+def inline_new_constants(mod, pinned, repo_lookup=None):
+    """D. A literal hoisted into a *new* named module constant (possibly imported from another analysed module where it is new as well) is read as the
+    literal.  Equivalence: the name is bound once, to an immutable value, and never rebound, shadowed or declared global anywhere in the module."""
+    consts = dict(new_module_constants(mod, pinned))
+    imported = {}
+    if repo_lookup is not None:
+        top = pinned.get("__top__") or []
+        for st in mod.tree.body:
+            if isinstance(st, ast.ImportFrom) and st.module and st.level == 0:
+                for al in st.names:
+                    nm = al.asname or al.name
+                    if nm in top:
+                        continue
+                    src = repo_lookup(st.module)
+                    if src is not None and al.name in src:
+                        imported[nm] = src[al.name]
+    n = 0
+    if not consts and not imported:
+        return 0
+    shadow = {}
+    for nm in imported:
+        cnt = 0
+        for x in ast.walk(mod.tree):
+            if isinstance(x, ast.Name) and x.id == nm and isinstance(x.ctx, (ast.Store, ast.Del)):
+                cnt += 1
+            elif isinstance(x, ast.arg) and x.arg == nm:
+                cnt += 1
+            elif isinstance(x, (ast.Global, ast.Nonlocal)) and nm in x.names:
+                cnt += 1
+        shadow[nm] = cnt
+    table = dict(consts)
+    table.update(dict((k, v) for k, v in imported.items() if not shadow.get(k)))
+
+    def expand(e, depth=0):
+        e = _clone(e)
+        if depth > 6:
+            return e
+        if isinstance(e, ast.Name) and e.id in table:
+            return expand(table[e.id], depth + 1)
+        for x in list(ast.walk(e)):
+            for fld, val in list(ast.iter_fields(x)):
+                if isinstance(val, ast.Name) and val.id in table:
+                    setattr(x, fld, expand(table[val.id], depth + 1))
+                elif isinstance(val, list):
+                    for i, y in enumerate(val):
+                        if isinstance(y, ast.Name) and y.id in table:
+                            val[i] = expand(table[y.id], depth + 1)
+        return e
+    defs = set(id(st.value) for st in mod.tree.body if isinstance(st, ast.Assign) and len(st.targets) == 1 and isinstance(st.targets[0], ast.Name) and st.targets[0].id in consts)
+    for x in list(ast.walk(mod.tree)):
+        if isinstance(x, ast.Name) and isinstance(x.ctx, ast.Load) and x.id in table:
+            if any(id(a) in defs for a in _ancestors(x)):
+                continue
+            new = expand(table[x.id])
+            _place([new], x)
+            if _replace_expr(x, new):
+                n += 1
+    if n:
+        set_parents(mod.tree)
+    return n
+
+
 def normalise(mod):
-    """Apply B, A, C, A.  Returns a small report dict."""
-    rep = {"inlined": 0, "propagated": 0, "renamed": 0}
+    """Apply D, B, A, C, A.  Returns a small report dict."""
+    rep = {"inlined": 0, "propagated": 0, "renamed": 0, "constants": 0}
     pinned = alpha.table().get(mod.name)
     if not pinned:
         return rep
     import hashlib
-    if pinned.get("__digest__") == hashlib.sha1(mod.src.encode("utf-8")).hexdigest():
-        return rep          # byte-identical to the pinned module: nothing to normalise
+    unchanged = pinned.get("__digest__") == hashlib.sha1(mod.src.encode("utf-8")).hexdigest()
+    try:
+        rl = getattr(mod, "const_lookup", None)
+        rep["constants"] = inline_new_constants(mod, pinned, rl) if not unchanged else 0
+    except Exception:
+        pass
+    if rep["constants"]:
+        mod.reindex()
+    if unchanged:
+        return rep          # byte-identical to the pinned module: nothing else to normalise
     try:
         rep["inlined"] = inline_new_helpers(mod, pinned)
     except Exception:
